@@ -7,6 +7,7 @@ import (
 	"go/token"
 	"go/types"
 	"os"
+	"os/exec"
 	"path/filepath"
 	"runtime/debug"
 	"sort"
@@ -96,7 +97,7 @@ func verifRoot() string {
 
 func newCtx(prop, tier string) *Ctx {
 	seed, _ := strconv.Atoi(os.Getenv("VERIF_SEED"))
-	return &Ctx{Prop: prop, Tier: tier, Seed: seed, Repo: repoRoot(), VerifDir: verifRoot(),
+	return &Ctx{Prop: prop, Tier: tier, Seed: seed, Repo: repoRoot(), VerifDir: verifRoot(), GOARCH: os.Getenv("JAMVERIF_GOARCH"),
 		minCounts: map[string]int{}, seenRules: map[string]bool{}, extra: map[string]any{}, start: time.Now()}
 }
 
@@ -577,5 +578,114 @@ func runCheck(prop, tier string, fn func(*Ctx) (string, []string)) (code int) {
 		return c.Finish("load failed", nil)
 	}
 	expl, assume := fn(c)
+	if tier == "thorough" && os.Getenv("JAMVERIF_NO_SELFTEST") == "" && len(c.fatal) == 0 {
+		c.selfTest()
+	}
 	return c.Finish(expl, assume)
+}
+
+// Deep returns q in the quick tier and t in the thorough tier (evaluation
+// ranges of the finite-tabulation rules).
+func (c *Ctx) Deep(q, t int64) int64 {
+	if c.Tier == "thorough" {
+		return t
+	}
+	return q
+}
+
+// selfTest (thorough tier): every stored property-breaking change for this
+// property (seeded/<ID>-*/patch.diff, mutants/<ID>/bad_*.diff) is applied to a
+// throw-away copy of the current working tree outside /repo and /verif and
+// the quick analysis is re-run on the copy: it must report a violation; the
+// behaviour-preserving variants (mutants/<ID>/benign_*.diff) and seeds marked
+// neutralised must stay silent. Static analysis of a modified copy of the
+// source: nothing is executed. A mismatch fails the check (exit 2): it means
+// the checker no longer decides what it decided when the change was confirmed.
+func (c *Ctx) selfTest() {
+	type tc struct {
+		name, patch   string
+		wantViolation bool
+	}
+	var cases []tc
+	seeds, _ := filepath.Glob(filepath.Join(c.VerifDir, "seeded", c.Prop+"-*"))
+	sort.Strings(seeds)
+	for _, d := range seeds {
+		want := true
+		if b, err := os.ReadFile(filepath.Join(d, "meta.json")); err == nil {
+			var m map[string]any
+			if json.Unmarshal(b, &m) == nil {
+				if st, _ := m["status"].(string); strings.HasPrefix(st, "neutralised") {
+					want = false
+				}
+			}
+		}
+		cases = append(cases, tc{filepath.Base(d), filepath.Join(d, "patch.diff"), want})
+	}
+	own, _ := filepath.Glob(filepath.Join(c.VerifDir, "mutants", c.Prop, "*.diff"))
+	sort.Strings(own)
+	for _, p := range own {
+		cases = append(cases, tc{"own/" + filepath.Base(p), p, !strings.HasPrefix(filepath.Base(p), "benign_")})
+	}
+	exe, err := os.Executable()
+	if err != nil {
+		c.Fatalf("self-test: %v", err)
+		return
+	}
+	var results []map[string]any
+	for _, t := range cases {
+		tmp, err := os.MkdirTemp("", "jamverif-selftest-")
+		if err != nil {
+			c.Fatalf("self-test: %v", err)
+			return
+		}
+		res := map[string]any{"change": t.name, "expected": map[bool]string{true: "violation", false: "silent"}[t.wantViolation]}
+		func() {
+			defer os.RemoveAll(tmp)
+			tree := filepath.Join(tmp, "tree")
+			scratch := filepath.Join(tmp, "scratch")
+			os.MkdirAll(scratch, 0o755)
+			// copy the working tree without .git
+			cp := exec.Command("rsync", "-a", "--exclude", ".git", c.Repo+"/", tree+"/")
+			if out, err := cp.CombinedOutput(); err != nil {
+				res["outcome"] = "copy failed: " + string(out)
+				return
+			}
+			ap := exec.Command("git", "apply", "--whitespace=nowarn", t.patch)
+			ap.Dir = tree
+			if out, err := ap.CombinedOutput(); err != nil {
+				res["outcome"] = "stale (patch does not apply to the current tree): " + strings.TrimSpace(string(out))
+				return
+			}
+			run := exec.Command(exe, "check", c.Prop, "--tier", "quick")
+			run.Env = append(os.Environ(), "JAMVERIF_REPO="+tree, "JAMVERIF_SCRATCH="+scratch, "JAMVERIF_HOME="+c.VerifDir)
+			out, _ := run.CombinedOutput()
+			code := run.ProcessState.ExitCode()
+			res["exit"] = code
+			first := ""
+			for _, l := range strings.Split(string(out), "\n") {
+				if strings.HasPrefix(strings.TrimSpace(l), "violated:") {
+					first = strings.TrimSpace(l)
+					if len(first) > 260 {
+						first = first[:260]
+					}
+					break
+				}
+			}
+			res["first_report"] = strings.ReplaceAll(first, tree+"/", "")
+			switch {
+			case t.wantViolation && code == 1:
+				res["outcome"] = "caught"
+			case !t.wantViolation && code == 0:
+				res["outcome"] = "silent"
+			default:
+				res["outcome"] = "MISMATCH"
+			}
+		}()
+		results = append(results, res)
+		if res["outcome"] == "MISMATCH" {
+			c.Fatalf("self-test: stored change %s expected %s but the analysis exited %v", t.name, res["expected"], res["exit"])
+		}
+	}
+	c.extra["self_test"] = results
+	c.Note("thorough tier: %d stored source changes re-analysed on throw-away copies of the working tree (expected verdict per change recorded under self_test)", len(results))
 }
